@@ -1209,14 +1209,16 @@ def oracle_size_grid(nmax, stats):
     from py_stringsimjoin.filter import filter_utils as FU
     from fractions import Fraction as F
     v = []
-    ths = sorted(set([k / 100 for k in range(1, 101)] + [k / 1000 for k in range(1, 1000, 9)] + [1 / 3, 2 / 3, 1 / 7, 0.28, 0.56]))
+    ths = sorted(set([k / 100 for k in range(1, 101)] + [k / 1000 for k in range(1, 1000, 9)] + [1 / 3, 2 / 3, 1 / 7, 0.28, 0.56] +
+                     [0.00011, 0.0005, 0.003, 0.00707, 0.00708]))
     cnt = 0
+    one_empty_seen = False
     for t in ths:
         ft = F(t)
         for n in range(1, nmax + 1):
             lo = {m: FU.get_size_lower_bound(n, m, t) for m in ('JACCARD', 'COSINE', 'DICE')}
             hi = {m: FU.get_size_upper_bound(n, m, t) for m in ('JACCARD', 'COSINE', 'DICE')}
-            for k in range(1, nmax + 1):
+            for k in range(0, nmax + 1):         # k = 0: exactly one side has no tokens (both empty is C09's business)
                 a, b = min(n, k), max(n, k)
                 cnt += 1
                 best = {'JACCARD': F(a, b), 'DICE': F(2 * a, n + k)}
@@ -1230,6 +1232,11 @@ def oracle_size_grid(nmax, stats):
                 if F(a, b) >= ft * ft and not kept:          # sqrt(a/b) >= t
                     v.append(viol('C04', 'size window drops counts that reach the threshold (COSINE t=%r n=%d k=%d)' % (t, n, k), {'entry': 'size_grid', 'm': 'COSINE', 't': t, 'n': n, 'k': k}))
                 if ft > F(1, 10000) and F(a, b) < (ft - F(1, 10000)) ** 2 and kept:
+                    if k == 0:
+                        # one report for the whole class (count 0 against a window whose lower bound rounded to 0)
+                        if one_empty_seen:
+                            continue
+                        one_empty_seen = True
                     v.append(viol('C14', 'size window keeps hopeless counts (COSINE t=%r n=%d k=%d)' % (t, n, k), {'entry': 'size_grid', 'm': 'COSINE', 't': t, 'n': n, 'k': k}))
                 if len(v) > 20:
                     return v
@@ -1280,7 +1287,7 @@ def oracle_ed_filters_exhaustive(maxlen_ab, maxlen_abc, stats, tables=True):
                 tok = sm.QgramTokenizer(qval=q, padding=pad, return_set=False)
                 toks = {x: tok.tokenize(x) for x in strs}
                 tsets = {x: set(toks[x]) for x in strs}
-                for tau in (0, 1, 2, 3):
+                for tau in (0, 1, 2, 3, 0.5, 1.0, 2.5):      # the documented type of the threshold is float
                     qual = []
                     for x in strs:
                         for y in strs:
@@ -1299,7 +1306,7 @@ def oracle_ed_filters_exhaustive(maxlen_ab, maxlen_abc, stats, tables=True):
                         for (x, y) in qual:
                             cnt += 1
                             if f.filter_pair(x, y):
-                                v.append(viol('C04', '%sFilter.filter_pair drops a qualifying pair (EDIT_DISTANCE, t=%d, q=%d, padding=%s: %r / %r)'
+                                v.append(viol('C04', '%sFilter.filter_pair drops a qualifying pair (EDIT_DISTANCE, t=%r, q=%d, padding=%s: %r / %r)'
                                               % (kind, tau, q, pad, x, y), dict(case0, strings=[x, y])))
                                 if len(v) > 12:
                                     return v
@@ -1311,7 +1318,7 @@ def oracle_ed_filters_exhaustive(maxlen_ab, maxlen_abc, stats, tables=True):
                             for (x, y) in qual:
                                 cnt += 1
                                 if (pos[x], pos[y]) not in kept:
-                                    v.append(viol('C04', '%sFilter.filter_tables omits a qualifying pair (EDIT_DISTANCE, t=%d, q=%d, padding=%s: %r / %r)'
+                                    v.append(viol('C04', '%sFilter.filter_tables omits a qualifying pair (EDIT_DISTANCE, t=%r, q=%d, padding=%s: %r / %r)'
                                                   % (kind, tau, q, pad, x, y), dict(case0, strings=[x, y], table='all strings over %r up to length %d' % (alpha, maxlen))))
                                     if len(v) > 12:
                                         return v
